@@ -12,12 +12,17 @@ package snapshot_test
 // timeout seen, harness clock value taken *before* its last successful read}.
 // With now = harness clock *after* the operation under test:
 //
-//	holds(s)    = !closed && !timeoutSeen && now - lastActivityStart < T     (it cannot legitimately have timed out)
+//	holds(s)    = !closed && !timeoutSeen && now - start(last read) < T && end(last read) - start(read before it) < T
 //	released(s) = closed || timeoutSeen
 //
-// Both are sound whatever the machine load: the implementation's idle time is
-// never larger than now - lastActivityStart. Anything in between is
-// "uncertain" and accepts either behaviour.
+// Both are sound whatever the machine load. The idle timer compares the clock
+// with the time stored when the last read *returned*; it may fire while the
+// next read is already in flight (that read can still succeed) using the
+// older stored value. So a force-close is legitimate iff T elapsed either
+// since the start of the last successful read, or between the start of the
+// read before it and the end of the last one; the harness clock values used
+// never under-estimate those intervals. Anything else is "uncertain" and
+// accepts either behaviour.
 //
 // Oracle: every byte a stream returns equals the reference; a live stream
 // (holds) never gets an error or a timeout; Reap() fails while some stream
@@ -58,14 +63,15 @@ type c11Stream struct {
 	rc          io.ReadCloser
 	ref         []byte
 	pos         int
-	lastStart   time.Time // harness clock before the last successful activity (open or read with n > 0)
+	lastStart   time.Time     // harness clock before the last successful activity (open or read with n > 0)
+	prevGap     time.Duration // end of the last successful activity minus start of the one before it
 	closed      bool
 	timeoutSeen bool
 	openedStep  int
 }
 
 func (s *c11Stream) holds(now time.Time) bool {
-	return !s.closed && !s.timeoutSeen && now.Sub(s.lastStart) < c11T
+	return !s.closed && !s.timeoutSeen && now.Sub(s.lastStart) < c11T && s.prevGap < c11T
 }
 func (s *c11Stream) released() bool { return s.closed || s.timeoutSeen }
 
@@ -118,16 +124,28 @@ func (m *c11Machine) allReleased() bool {
 // timeout between two reads (busy machine): such an attempt proves nothing and
 // is repeated. Any other failure, or a timeout although less than T passed
 // since the previous read started, is returned as an error.
-func c11ReadAll(st *snapshot.Store, id string, T time.Duration) ([]byte, error) {
+func c11ReadAll(st *snapshot.Store, id string, T time.Duration, waitForReaper bool) ([]byte, error) {
 	var lastErr error
+	deadline := time.Now().Add(c11Generous)
 	for attempt := 0; attempt < 10; attempt++ {
 		last := time.Now()
 		_, rc, err := st.Open(id)
 		if err != nil {
+			// Open does not wait for a running reap: a lock conflict is allowed
+			// behaviour. Callers that only need the bytes wait for the reaper.
+			if waitForReaper && isConflict(err) {
+				if time.Now().After(deadline) {
+					return nil, fmt.Errorf("gave up: lock conflict for %v: %w", c11Generous, err)
+				}
+				time.Sleep(2 * time.Millisecond)
+				attempt--
+				continue
+			}
 			return nil, fmt.Errorf("open: %w", err)
 		}
 		var out []byte
 		buf := make([]byte, 32*1024)
+		prevGap := time.Since(last)
 		for {
 			t0 := time.Now()
 			n, err := rc.Read(buf)
@@ -138,13 +156,14 @@ func c11ReadAll(st *snapshot.Store, id string, T time.Duration) ([]byte, error) 
 			}
 			if err != nil {
 				rc.Close()
-				if errors.Is(err, snapshot.ErrSnapshotReaderTimeout) && time.Since(last) >= T {
+				if errors.Is(err, snapshot.ErrSnapshotReaderTimeout) && (time.Since(last) >= T || prevGap >= T) {
 					lastErr = err
 					break // descheduled past the timeout: try again
 				}
 				return nil, err
 			}
 			if n > 0 {
+				prevGap = time.Since(last)
 				last = t0
 			}
 		}
@@ -268,10 +287,24 @@ func (m *c11Machine) open() {
 		}
 		m.fail("C11/open-failed", "Open(%s) failed: %v", pick.ID, err)
 	}
-	s := &c11Stream{id: pick.ID, rc: rc, lastStart: t0, openedStep: m.step}
+	s := &c11Stream{id: pick.ID, rc: rc, lastStart: t0, prevGap: time.Since(t0), openedStep: m.step}
 	// reference: a second stream of the same snapshot, read right away
-	ref, err := c11ReadAll(m.b.Store, pick.ID, c11T)
+	ref, err := c11ReadAll(m.b.Store, pick.ID, c11T, false)
 	if err != nil {
+		now := time.Now()
+		if isConflict(err) {
+			// The reaper owns the write lock. That is fine if the first stream
+			// may have been force-closed meanwhile (descheduled past the
+			// timeout); it is a reap running next to an open stream otherwise.
+			if s.holds(now) {
+				rc.Close()
+				m.fail("C11/reap-ran-with-open-stream", "a second Open of %s reports the reaper as lock owner %v after the first stream was opened, which cannot have timed out (timeout %v): %v", pick.ID, now.Sub(t0), c11T, err)
+			}
+			rc.Close()
+			m.rec.Label("second-open-raced-with-reap")
+			m.note("open-abandoned(reaper)")
+			return
+		}
 		rc.Close()
 		if strings.Contains(err.Error(), "gave up") {
 			m.rec.Label("inconclusive:reference-read-starved")
@@ -317,7 +350,7 @@ func (m *c11Machine) read(s *c11Stream, i, want int) {
 	t0 := time.Now()
 	n, err := s.rc.Read(buf)
 	t1 := time.Now()
-	live := t1.Sub(s.lastStart) < c11T && !s.timeoutSeen
+	live := t1.Sub(s.lastStart) < c11T && s.prevGap < c11T && !s.timeoutSeen
 	if n > 0 {
 		if s.pos+n > len(s.ref) || !bytes.Equal(buf[:n], s.ref[s.pos:s.pos+n]) {
 			m.fail("C11/stream-bytes-changed", "stream #%d (%s) returned %d bytes at offset %d that differ from the bytes the snapshot had when it was opened", i, s.id, n, s.pos)
@@ -327,7 +360,7 @@ func (m *c11Machine) read(s *c11Stream, i, want int) {
 	switch {
 	case errors.Is(err, snapshot.ErrSnapshotReaderTimeout):
 		if live {
-			m.fail("C11/premature-timeout", "stream #%d reported an idle timeout %v after its last read started (timeout %v)", i, t1.Sub(s.lastStart), c11T)
+			m.fail("C11/premature-timeout", "stream #%d reported an idle timeout %v after its last read started and with %v between the start of the read before and the end of the last one (timeout %v)", i, t1.Sub(s.lastStart), s.prevGap, c11T)
 		}
 		s.timeoutSeen = true
 		m.note(fmt.Sprintf("read#%d=timeout", i))
@@ -343,6 +376,7 @@ func (m *c11Machine) read(s *c11Stream, i, want int) {
 		m.rec.Label("read-error-on-possibly-timed-out-stream")
 	}
 	if n > 0 {
+		s.prevGap = t1.Sub(s.lastStart)
 		s.lastStart = t0
 	}
 	m.note(fmt.Sprintf("read#%d", i))
@@ -527,7 +561,7 @@ func TestVerif_C11_Lockstep(t *testing.T) {
 					if s.closed && op == "close" {
 						break
 					}
-					if err := s.rc.Close(); err != nil && !s.timeoutSeen && !s.closed && time.Since(s.lastStart) < c11T {
+					if err := s.rc.Close(); err != nil && s.holds(time.Now()) {
 						m.fail("C11/close-error", "Close of live stream #%d failed: %v", i, err)
 					}
 					s.closed = true
@@ -607,7 +641,7 @@ func TestVerif_C11_Lockstep(t *testing.T) {
 		// whatever is left restores to the recorded content
 		if n := len(m.b.Snaps); n > 0 {
 			last := m.b.Snaps[n-1]
-			data, err := c11ReadAll(m.b.Store, last.ID, c11T)
+			data, err := c11ReadAll(m.b.Store, last.ID, c11T, true)
 			if err == nil {
 				var d string
 				d, err = vsnap.RestoreStreamDump(bytes.NewReader(data))
@@ -763,6 +797,7 @@ func c11StressRound(t *testing.T, rec *vstat.Rec, seed int64) {
 				var rerr error
 				stalled := false
 				lastStart := tOpen
+				prevGap := time.Duration(0)
 				for {
 					if p := rnd.Intn(40); p == 0 {
 						time.Sleep(T + 30*time.Millisecond) // stall past the timeout
@@ -777,12 +812,13 @@ func c11StressRound(t *testing.T, rec *vstat.Rec, seed int64) {
 					got = append(got, buf[:n]...)
 					if e != nil {
 						rerr = e
-						if errors.Is(e, snapshot.ErrSnapshotReaderTimeout) && time.Since(lastStart) < T {
-							violation("C11/premature-timeout", "stream of %s was force-closed %v after its last read started (timeout %v)", id, time.Since(lastStart), T)
+						if errors.Is(e, snapshot.ErrSnapshotReaderTimeout) && time.Since(lastStart) < T && prevGap < T {
+							violation("C11/premature-timeout", "stream of %s was force-closed %v after its last read started, %v between the start of the read before and the end of the last one (timeout %v)", id, time.Since(lastStart), prevGap, T)
 						}
 						break
 					}
 					if n > 0 {
+						prevGap = time.Since(lastStart)
 						lastStart = t0
 					}
 				}
@@ -874,7 +910,7 @@ func c11StressRound(t *testing.T, rec *vstat.Rec, seed int64) {
 		mu.Lock()
 		_ = dumps
 		mu.Unlock()
-		data, err := c11ReadAll(b.Store, l[0].ID, T)
+		data, err := c11ReadAll(b.Store, l[0].ID, T, true)
 		if err == nil {
 			_, err = vsnap.RestoreStreamDump(bytes.NewReader(data))
 		}
